@@ -61,17 +61,20 @@ TMembers == /\ Ev.ev = "members"
             /\ Verdict(IF SetOf(Ev.m) # mon.mem THEN "C10_membership_differs_from_admissions_and_departures" ELSE "ok")
             /\ UNCHANGED <<mon, pend, drift, nbeh>>
 \* C14 at the library level: views built from the announcements equal the membership at quiescence
+\* (judged from the event alone: also when an earlier clause has already failed in this behaviour)
 TViews == /\ Ev.ev = "views"
-          /\ Verdict(IF Ev.wrong # <<>> THEN "C14_view_does_not_converge_to_membership" ELSE "ok")
+          /\ LET v == IF Ev.wrong # <<>> THEN "C14_view_does_not_converge_to_membership" ELSE "ok" IN
+             /\ skip' = (skip \/ v # "ok") /\ nbad' = IF v # "ok" THEN nbad + 1 ELSE nbad
+             /\ (v # "ok" => PrintT(<<"TRACE-BAD", l, nbeh, v>>))
           /\ UNCHANGED <<mon, pend, drift, nbeh>>
 TWitness == /\ Ev.ev = "witness"
             /\ Verdict(IF Ev.completed = 0 THEN "C13_D1_lifecycle_operations_blocked_forever"
                        ELSE IF "bad_entries" \in DOMAIN Ev /\ Ev.bad_entries > 0 THEN "C13_D2_reader_saw_a_corrupted_chat_history" ELSE "ok")
             /\ UNCHANGED <<mon, pend, drift, nbeh>>
-TSkip == skip /\ Ev.ev # "New" /\ UNCHANGED <<mon, pend, drift, nbeh, nbad, skip>>
+TSkip == skip /\ Ev.ev \notin {"New", "views"} /\ UNCHANGED <<mon, pend, drift, nbeh, nbad, skip>>
 
 Step == /\ l <= Len(Trace)
-        /\ (TNew \/ TSkip \/ (~skip /\ (TAdmit \/ TRefuse \/ TLeave \/ TLock \/ TEdit \/ TAnn \/ TMembers \/ TViews \/ TWitness)))
+        /\ (TNew \/ TSkip \/ TViews \/ (~skip /\ (TAdmit \/ TRefuse \/ TLeave \/ TLock \/ TEdit \/ TAnn \/ TMembers \/ TWitness)))
         /\ l' = l + 1 /\ UNCHANGED done
 Finish == /\ l = Len(Trace) + 1 /\ ~done /\ done' = TRUE
           /\ PrintT(<<"TRACE-DONE", l - 1, nbeh, drift, nbad>>)
